@@ -4,7 +4,7 @@ From Coq Require Import List NArith String.
 Import ListNotations.
 Open Scope string_scope.
 
-(* must equal Generated.LatticeSites.lattice_fns (obligation C03_fact_lattice_sites) *)
+(* Generated.lattice_fns of the pinned tree, as reviewed; the obligation compares the keys at the end of this file *)
 Definition lattice_classified : list (string * list string * N * list string * list string) :=
   [ ("reset_vec", [], 0%N, [], []);
     ("reset", [], 0%N, [], []);
@@ -47,3 +47,20 @@ Fixpoint assoc_s {A} (k : string) (l : list (string * A)) : option A :=
 (* count of one kind of construct in one file of the inventory Generated.PanicSites.sites *)
 Definition inventory_count (sites : list (string * list (string * N))) (file kind : string) : option N :=
   match assoc_s file sites with Some row => assoc_s kind row | None => None end.
+
+(* The classified constructs as keys (gen/sitekeys.py), per function: Generated.LatticeSites.lattice_site_keys has to stay WITHIN this table
+   (obligation C03_fact_lattice_sites: Proofs/SiteCover.covered).  A construct that disappears from the code, or an index /
+   cast operand spelled differently, leaves the obligation closed; a new construct or one more of a kind re-opens it.
+   The table `lattice_classified` above is the reviewed inventory with the full expressions of the pinned tree (what the site-status
+   table talks about); Generated/LatticeSites.v still lists the current expressions next to the keys. *)
+Definition lattice_keys_classified : list (string * list string) :=
+  [ ("reset_vec", []);
+    ("reset", []);
+    ("connect_bos", ["idx:self.ends[i]"]);
+    ("connect_eos", ["cast:u16"; "cast:u16"; "sub"; "sub"]);
+    ("insert", ["idx:self.ends[i]"; "idx:self.ends_full[i]"; "idx:self.indices[i]"]);
+    ("connect_node", ["cast:i32"; "cast:i32"; "cast:u16"; "cast:u16"; "idx:self.ends[i]"]);
+    ("has_previous_node", []);
+    ("node", ["idx:self.ends[i][i]"; "idx:self.ends_full[i][i]"]);
+    ("fill_top_path", ["idx:self.indices[i][i]"; "unwrap"]);
+    ("dump", ["idx:grammar.pos_list[i]"; "idx:grammar.pos_list[i]"; "idx:nodes[i]"; "idx:self.ends[i]"; "idx:self.ends_full[i]"]) ].
